@@ -112,6 +112,7 @@ func (c *ppCodec) HTTPMapping() api.HTTPMapping     { return nil }
 
 var ppCodecInst = &ppCodec{name: "vhpp", mode: api.PingPong}
 var mxCodecInst = &ppCodec{name: "vhmx", mode: api.Multiplex}
+var bdCodecInst = &ppCodec{name: "vhbd", mode: api.TCP}
 
 // multiplex test codecs whose id generator IS the real protocol's GenerateRequestID
 var genCodecs = map[string]*ppCodec{
@@ -131,6 +132,9 @@ func registerProtocols() {
 			panic(err)
 		}
 		if err := xprotocol.RegisterXProtocolCodec(mxCodecInst); err != nil {
+			panic(err)
+		}
+		if err := xprotocol.RegisterXProtocolCodec(bdCodecInst); err != nil {
 			panic(err)
 		}
 		for _, c := range genCodecs {
